@@ -263,6 +263,58 @@ def execute(inst, op, results, world=None):
 _fresh_cache = {}
 
 
+def per_module_reference(op, obs):
+    """Every module the call wrote, produced once more with a parser, a symbol-table builder and a code generator made
+    for that module alone (symbol tables built in the order the call reported the modules): what compile() wrote must not
+    depend on its builder and generator objects having served the other modules of the call.  -> {module: [sha, sha]}"""
+    import sys
+    import time
+    from pysmi import error
+    from pysmi.codegen import JsonCodeGen
+    from pysmi.codegen.symtable import SymtableCodeGen
+    from pysmi.compiler import MibCompiler, packageName, packageVersion
+    specs = op.get('modules', {})
+    texts = dict(basemibs.ALL_BASE)
+    for n, sp in specs.items():
+        texts[n] = mibgen.render(sp, specs)
+    for cname in op.get('corpus', ()):
+        mname, mtext = corpus.CORPUS_MODULES[cname]()
+        texts[mname] = mtext
+    for n in op.get('absent', ()):
+        texts.pop(n, None)
+    inst = Instances()
+    inst.is_fresh = True
+    out = {}
+    try:
+        trees, stmap = {}, {}
+        for n in obs['status']:
+            if n in texts and obs['status'][n]['s'] in ('compiled', 'untouched', 'unprocessed', 'failed'):
+                try:
+                    for tree in inst.parser('smiV1Relaxed').parse(texts[n]):
+                        mi, st = SymtableCodeGen().genCode(tree, stmap)
+                        stmap[mi.name] = st
+                        trees[mi.name] = tree
+                except error.PySmiError:
+                    continue
+        c0 = MibCompiler(None, None, None)
+        platform_info, user_info = c0._get_system_info()
+        opts = op.get('options', {})
+        for n in sorted(obs['written']):
+            if n not in trees or n in basemibs.ALL_BASE:
+                continue
+            comments = ['ASN.1 source file:///dev/stdin', 'Produced by %s-%s at %s' % (packageName, packageVersion, time.asctime()),
+                        'On host %s platform %s version %s by user %s' % (platform_info[1], platform_info[0], platform_info[2], user_info[0]),
+                        'Using Python version %s' % sys.version.split('\n')[0]]
+            try:
+                mi, text = JsonCodeGen().genCode(trees[n], stmap, comments=comments, dstTemplate=None, genTexts=opts.get('genTexts'), textFilter=None)
+            except error.PySmiError:
+                continue
+            out[n] = [obs['written'][n], sha(text)]
+    finally:
+        inst.close()
+    return out
+
+
 def run_history(hist):
     """Execute a history; -> list of records, one per op:
        {'long': obs digest, 'fresh': obs digest, 'long_obs': obs (small), 'same': bool}"""
@@ -350,6 +402,8 @@ def run_history(hist):
                             # the module summary (OIDs, identity, revision, compliance ...) reported for it, too
                             solo[m] += [_brief(b['status'][m]), _brief(o1['status'][m])]
                 recs[-1]['solo'] = solo
+                if eff.get('codegen', 'json') == 'json' and not eff.get('options', {}).get('keepLayout'):
+                    recs[-1]['permod'] = per_module_reference(eff, b)
             w.end_op()
     long_lived.close()
     if hroot:
